@@ -26,7 +26,10 @@ def funcOf (j : Json) : R (Func Nat) := do
   let kwonly ← (← field j "kwonly" >>= arrOf).toList.mapM paramOf
   return { pos, kwonly, varargs := (← boolField j "varargs"), varkw := (← boolField j "varkw"),
            pArgs := (← field j "pArgs" >>= natList), pKwds := (← field j "pKwds" >>= pairList),
-           bound := (← boolField j "bound") }
+           bound := (← boolField j "bound"),
+           nposonly := (match j.getObjVal? "nposonly" with
+             | .ok v => (match v.getNat? with | .ok n => n | .error _ => 0)
+             | .error _ => 0) }
 
 def keysCfgOf (j : Json) : R KeysCfg := do
   return { consts := { null := (← natField j "null"), star := (← natField j "star"), dstar := (← natField j "dstar") },
@@ -96,7 +99,7 @@ def keysStep (c : KeysCfg) (j : Json) : R Json := do
       return Json.mkObj [("outer", outerJ), ("inner", inner)]
   | "bind" =>
     let cl ← callOf j
-    match bind (← natField j "self") c.func cl with
+    match bindPO (← natField j "self") c.func cl with
     | some b => return Json.mkObj [("named", jPairs b.named), ("extraPos", jNats b.extraPos), ("extraKw", jPairs b.extraKw)]
     | none => return Json.null
   | "validate" =>
